@@ -703,6 +703,8 @@ func configs(maxNodes int) []config {
 
 func main() {
 	gomega.RegisterFailHandler(func(m string, _ ...int) { panic("gomega: " + m) })
+	gomega.SetDefaultEventuallyTimeout(120 * time.Second)
+	gomega.SetDefaultEventuallyPollingInterval(5 * time.Millisecond)
 	r := vk.New("C07", "exploration")
 	// this harness bounds every call of the code under test with its own limits (and confirms
 	// a miss on a dedicated re-run), so the supervisor's stall watchdog only has to see that
